@@ -103,6 +103,7 @@ fn restrict(node: &mut Node) {
 }
 
 pub fn run_case(ctx: &mut Ctx, case: &Value) {
+    crate::real::set_current(case);
     ctx.report.evaluations += 1;
     let tree = Node::from_wire(&case["tree"]);
     let marks = tree.marks();
